@@ -22,6 +22,10 @@ type seed struct {
 }
 
 var seeds = []seed{
+	{"RemoveRange lets an empty range ending at 0 through to end-1", "U11", "roaring.go", "func (rb *Bitmap) RemoveRange(rangeStart, rangeEnd uint64) {\n\tif rangeStart >= rangeEnd {\n", "func (rb *Bitmap) RemoveRange(rangeStart, rangeEnd uint64) {\n\tif rangeStart > rangeEnd {\n", "Bitmap).RemoveRange|<uint64> - 1"},
+	{"Rank asks the first chunk that is not below x about the low half of x", "LOW1", "roaring.go", "\t\tif key > highbits(x) {\n\t\t\treturn size\n\t\t}\n\t\tif key < highbits(x) {\n\t\t\tsize += uint64(rb.highlowcontainer.getContainerAtIndex(i).getCardinality())\n", "\t\tif key < highbits(x) {\n\t\t\tsize += uint64(rb.highlowcontainer.getContainerAtIndex(i).getCardinality())\n", "Bitmap).Rank|low half"},
+	{"the ParOr worker hands the range bounds to the in-place merge in exchanged order", "SW1", "parallel.go", "\t\t\t\tra = lazyIOrOnRange(ra, &b.highlowcontainer, spec.start, spec.end)\n", "\t\t\t\tra = lazyIOrOnRange(ra, &b.highlowcontainer, spec.end, spec.start)\n", "ParOr|call of lazyIOrOnRange"},
+	{"the run validator leaves its pairwise loop early on a 16-bit last()+1", "U10", "runcontainer.go", "\t\t\tinnerInterval := rc.iv[inneridx]\n\n\t\t\tif outerInterval.equal(innerInterval) {\n", "\t\t\tinnerInterval := rc.iv[inneridx]\n\n\t\t\tif innerInterval.start > outerInterval.last()+1 {\n\t\t\t\tbreak\n\t\t\t}\n\t\t\tif outerInterval.equal(innerInterval) {\n", "validate|<interval16>.last() + 1"},
 	{"NextMany asks the inner iterator before looking whether the buffer has room", "CUR5", "roaring.go", "\tfor n < len(buf) {\n\t\tif ii.iter == nil {\n\t\t\tbreak\n\t\t}\n\t\tmoreN := ii.iter.nextMany(ii.hs, buf[n:])\n", "\tfor ii.iter != nil {\n\t\tif n == len(buf) && n > 0 {\n\t\t\tbreak\n\t\t}\n\t\tmoreN := ii.iter.nextMany(ii.hs, buf[n:])\n", "NextMany|zero answer of inner nextMany"},
 	{"lazyOrOnRange enters its tail loop with the key of the previous position", "CACHE1", "parallel.go", "\tif idx2 < length2 {\n\t\tkey2 = ra2.getKeyAtIndex(idx2)\n\t\tfor key2 <= last {\n\t\t\tanswer.appendCopy(*ra2, idx2)\n", "\tif idx2 < length2 {\n\t\tfor key2 <= last {\n\t\t\tanswer.appendCopy(*ra2, idx2)\n", "lazyOrOnRange|key2 beside cursor idx2"},
 	{"roaring64 reverse iterator reads its bucket key after stepping to the next bucket", "CUR1", "roaring64/iterables64.go", "\tx := uint64(ii.iter.Next()) | ii.hs\n\tif !ii.iter.HasNext() {\n\t\tii.pos = ii.pos - 1\n\t\tii.init()\n\t}\n\treturn x\n", "\tlow := ii.iter.Next()\n\tif !ii.iter.HasNext() {\n\t\tii.pos = ii.pos - 1\n\t\tii.init()\n\t}\n\treturn uint64(low) | ii.hs\n", "intReverseIterator).Next|hs with inner"},
